@@ -121,7 +121,7 @@ PROPS["C18"] = {
     "assumptions": ["net/http Cookie.String() is modelled (Model/Cookies.v: attribute order, Domain validity rule, Max-Age rendering)",
                     "configured domains are sorted longest-first (validation does it with sort.Slice; equal lengths excluded in the sweep)"],
     "trusted_base": ["reference Domain rule written in the driver (vRefDomain) from the property text, independent of repository code"],
-    "level_text": "c18_cookie_surface_pinned / c18_cookie_surface_reviewed (every http.Cookie literal, http.SetCookie call, Set-Cookie header name, cookie-attribute write and constructor call in ALL non-test sources, regenerated on every run, is the reviewed list, in which every emission hands over a cookie that came out of the constructor); c18_attrs, c18_domain (for every host string and every longest-first domain list: longest configured suffix of the port-less "
+    "level_text": "c18_cookie_flags_pinned (the cookie flags regenerated from cookieFlagSet on every run - name, pflag constructor, default: cookie-domain is a comma-separated, repeatable string slice); c18_cookie_surface_pinned / c18_cookie_surface_reviewed (every http.Cookie literal, http.SetCookie call, Set-Cookie header name, cookie-attribute write and constructor call in ALL non-test sources, regenerated on every run, is the reviewed list, in which every emission hands over a cookie that came out of the constructor); c18_attrs, c18_domain (for every host string and every longest-first domain list: longest configured suffix of the port-less "
                   "host, else the shortest, else none), c18_delete, c18_session_parts and c18_size (<= 4096) are proved for all inputs of the "
                   "Gallina model of MakeCookieFromOptions / GetCookieDomain / makeSessionCookie; the model is compared byte for byte with the "
                   "constructor on a sweep and an oracle monitors every Set-Cookie of complete flows on every run.",
@@ -241,7 +241,7 @@ PROPS["C11"] = {
     "assumptions": ["HMAC modelled as a function (table); the store is an association list in the model",
                     "lock keys (`<ticket>.lock`) are not session entries"],
     "trusted_base": ["net/http/cookiejar as the browser"],
-    "level_text": "c11_signout_race_reliable_provider (a sign-out racing a request on one stale session, Model/SignOutRace.v: for EVERY interleaving of their store / lock / provider operations, once both are finished the stored session is gone, provided the provider answers every refresh call; by a computed reachable-state set shown closed under both requests' moves), c11_signout_race_refuted and c11_signout_race_refuted_at_boundary (without the proviso the clause is false of the faithful model and of the code: known finding F21); the model is run on every schedule the deterministic scheduler explores on the real proxy, including a provider that fails the first refresh attempt; c11_cookies (every presented cookie of the session family is deleted under its own name with the configured path and "
+    "level_text": "c11_store_client_passes_errors (every method of both Redis client wrappers, regenerated from pkg/sessions/redis/client.go on every run, hands the call through in one return statement: the error sign-out sees is the store's); c11_signout_race_reliable_provider (a sign-out racing a request on one stale session, Model/SignOutRace.v: for EVERY interleaving of their store / lock / provider operations, once both are finished the stored session is gone, provided the provider answers every refresh call; by a computed reachable-state set shown closed under both requests' moves), c11_signout_race_refuted and c11_signout_race_refuted_at_boundary (without the proviso the clause is false of the faithful model and of the code: known finding F21); the model is run on every schedule the deterministic scheduler explores on the real proxy, including a provider that fails the first refresh attempt; c11_cookies (every presented cookie of the session family is deleted under its own name with the configured path and "
                   "selected domain), c11_success_implies_deleted and c11_error (server-side store: success redirect only if the delete "
                   "succeeded; a failed delete gives the error page), c11_ticket_cookie_deleted, c11_stays_deleted (induction over every later "
                   "history of store operations not re-writing the key) and c11_replay (no cookie resolving to the deleted ticket loads a "
